@@ -31,7 +31,8 @@ def random_call(rng: random.Random, u: Universe, max_nodes: int, max_vals: int) 
     ]
     if nn:
         ops += [("ReplaceInput", 8), ("ResizeInputs", 3), ("ResizeOutputs", 3), ("GAppend", 6), ("GExtend", 3),
-                ("GInsertBefore", 4), ("GInsertAfter", 4), ("GRemove", 6), ("ReplaceAllUses", 6), ("ReplaceAllUsesSeq", 3)]
+                ("GInsertBefore", 4), ("GInsertAfter", 4), ("GRemove", 6), ("ReplaceAllUses", 6), ("ReplaceAllUsesSeq", 3),
+                ("ReplaceNodes", 4)]
     if nn < max_nodes and nv < max_vals - 2:
         ops += [("NewNode", 12 if nn < 2 else 5)]
     names, weights = zip(*ops)
@@ -89,6 +90,10 @@ def random_call(rng: random.Random, u: Universe, max_nodes: int, max_vals: int) 
     if op == "ReplaceAllUsesSeq":
         k = rng.randint(1, 3)
         return mk(op, vs=[V() for _ in range(k)], ws=[V() for _ in range(k if rng.random() < 0.9 else k + 1)], flag=rng.random() < 0.6)
+    if op == "ReplaceNodes":
+        o = N()
+        return mk(op, g=G(), n=(o if rng.random() < 0.7 else N()), vs=[o], ws=(NS(1, 1) if rng.random() < 0.7 else []),
+                  v=V(), w=V())
     if op == "NewNode":
         ins = [V0() for _ in range(rng.randint(0, 3))]
         if rng.random() < 0.3:
